@@ -11,9 +11,15 @@ import CifModel.Basic
     * cif_value_clone                  (value.c)    — for character, number, unknown/na and (nested) list values,
                                                       with a fresh target (`*clone == NULL`)
     * cif_value_insert_element_at      (value.c)    — clone the element, grow the element array when full
-    * cif_value_set_element_at         (value.c)    — clone the element into the EXISTING target (`*clone != NULL`)
+    * cif_value_set_element_at         (value.c)    — clone the element into the EXISTING target (`*clone != NULL`):
+                                                      via a scratch object, target replaced only on success
     * cif_loop_get_names               (loop.c)     — cif_loop_get_names_internal(normalize = 0) on a stored loop:
                                                       linked list of (node, string), then the array of strings
+    * cif_value_copy_char              (value.c)    — copy the text, then cif_value_init_char (clean + take ownership)
+    * cif_value_deserialize            (value.c)    — DESERIALIZE / cif_list_deserialize for list blobs without numbers
+    * cif_packet_create                (packet.c)   — array of normalised names (cif_normalize: three buffers per ASCII
+                                                      name), cif_packet_create_norm (packet, entries, uthash's table and
+                                                      bucket array on the first HASH_ADD), copies of respelled names
 
   into this event language.  Table values are not covered here (uthash's own out-of-memory behaviour is a recorded
   open finding, see known_findings.json, F31).  `failAt = 0` means no failure.
@@ -47,6 +53,8 @@ def OK : Nat := 0
 def MEMORY_ERROR : Nat := 3
 def ERROR : Nat := 2
 def INVALID_HANDLE : Nat := 4
+/-- not a code of the library: the modelled path runs into undefined behaviour of the C (see `createNorm`) -/
+def UNDEFINED : Nat := 99
 
 -- ---------------------------------------------------------------------------------------------------------------
 -- dup_ustrings(dest, src) with n source strings (src != NULL)
@@ -182,42 +190,43 @@ def insertElement (failAt : Nat) (full : Bool) (elem : Shape) (s : St := {}) : N
 
 -- ---------------------------------------------------------------------------------------------------------------
 -- cif_value_set_element_at(list, index, element) with element != NULL and element != the current target:
--- `cif_value_clone(element, &target)` with a pre-existing target object (`*clone != NULL`)
+-- `cif_value_clone(element, &target)` with a pre-existing target object (`*clone != NULL`, `*clone != value`).
+-- Since /repo commit f1b092b the copy is built in a scratch object first; only on success is the target cleaned, the
+-- scratch struct-copied into it and the scratch OBJECT released (its components now belong to the target).  On
+-- failure the target is not touched at all.
 
-/-- `cif_value_clone` into an existing target: `cif_value_clean(*clone)` first (releases of the target's old, pre-existing
-    blocks: not events of the window), `to_free` stays NULL, so on failure the handler's `free(to_free)` releases nothing
-    and the target object itself survives.  Returns the ids of the blocks the target gained. -/
-def cloneExisting (failAt : Nat) : Shape → St → Option (List Nat) × St
-  | .scalar, s => (some [], s)
-  | .chr, s =>
-    match alloc failAt s with                                     -- cif_u_strdup(text)
-    | (none, s') => (none, s')
-    | (some t, s') => (some [t], s')
-  | .numb hasSu, s =>
-    match alloc failAt s with                                     -- text
-    | (none, s') => (none, s')
-    | (some t, s') =>
-      match alloc failAt s' with                                  -- digits
-      | (none, s'') => (none, free t s'')
-      | (some d, s'') =>
-        if hasSu then
-          match alloc failAt s'' with                             -- su_digits
-          | (none, s3) => (none, free t (free d s3))               -- FAILURE_HANDLER(su): digits, then text
-          | (some u, s3) => (some [t, d, u], s3)
-        else (some [t, d], s'')
-  | .lst elems, s =>
-    match alloc failAt s with                                     -- the element array
-    | (none, s') => (none, s')
-    | (some arr, s') =>
-      match cloneElems failAt elems [] s' with
-      | (some es, s'') => (some (arr :: Owned.idsList es), s'')
-      | (none, s'') => (none, free arr s'')                        -- cif_list_value_clean: elements (done by cloneElems), array
+/-- the value object itself -/
+def Owned.obj : Owned → Nat
+  | .scalar o => o
+  | .chr o _ => o
+  | .numb o _ _ _ => o
+  | .lst o _ _ => o
 
-/-- returns (result code, ids gained by the target element, final state) -/
-def setElement (failAt : Nat) (elem : Shape) (s : St := {}) : Nat × Option (List Nat) × St :=
-  match cloneExisting failAt elem s with
-  | (none, s') => (MEMORY_ERROR, none, s')
-  | (some g, s') => (OK, some g, s')
+/-- the component blocks (everything but the value object) -/
+def Owned.parts : Owned → List Nat
+  | .scalar _ => []
+  | .chr _ t => [t]
+  | .numb _ t d su => [t, d] ++ su.toList
+  | .lst _ a es => a :: Owned.idsList es
+
+/-- events of `cif_value_clean(v)`: as `freeOwned` without the final `free(v)` -/
+def cleanOwned : Owned → St → St
+  | .scalar _, s => s
+  | .chr _ t, s => free t s
+  | .numb _ t d su, s =>
+    let s := free t s
+    let s := free d s
+    match su with | some x => free x s | none => s
+  | .lst _ a es, s => free a (freeOwnedRev es s)
+
+/-- `old` = the target element as it is before the call (its blocks are live in `s`: they were obtained earlier).
+    Returns (result code, component ids the target owns afterwards if it was replaced, final state). -/
+def setElement (failAt : Nat) (old : Owned) (elem : Shape) (s : St) : Nat × Option (List Nat) × St :=
+  match clone failAt elem s with                                  -- cif_value_clone(value, &scratch), scratch == NULL
+  | (none, s') => (MEMORY_ERROR, none, s')                         -- return result;  (target untouched)
+  | (some o, s') =>
+    -- cif_value_clean(*clone);  **clone = *scratch;  free(scratch);
+    (OK, some o.parts, free o.obj (cleanOwned old s'))
 
 -- ---------------------------------------------------------------------------------------------------------------
 -- cif_loop_get_names(loop, &names) = cif_loop_get_names_internal(loop, &names, CIF_FALSE) for a stored loop
@@ -262,5 +271,220 @@ def getNamesGen (fixed : Bool) (failAt : Nat) (n : Nat) (s : St := {}) : Nat × 
 def getNamesPinned (failAt : Nat) (n : Nat) (s : St := {}) : Nat × List Nat × St := getNamesGen false failAt n s
 /-- with the one-line repair (`free(next_name)` before jumping to the handler) -/
 def getNames (failAt : Nat) (n : Nat) (s : St := {}) : Nat × List Nat × St := getNamesGen true failAt n s
+
+-- ---------------------------------------------------------------------------------------------------------------
+-- cif_value_copy_char(value, text) with text != NULL: copy = cif_u_strdup(text); cif_value_init_char(value, copy)
+
+/-- `old` = the value as it is before the call (live in `s`).  cif_value_init_char cannot fail for a non-NULL text: it
+    cleans the value and takes ownership of the copy (the `free(copy)` after a failed init is dead code).
+    Returns (result code, component ids the value owns afterwards if it was changed, final state). -/
+def copyChar (failAt : Nat) (old : Owned) (s : St) : Nat × Option (List Nat) × St :=
+  match alloc failAt s with                                       -- cif_u_strdup(text)
+  | (none, s') => (MEMORY_ERROR, none, s')                         -- value untouched
+  | (some t, s') => (OK, some [t], cleanOwned old s')              -- cif_value_clean(value); value->as_char.text = copy
+
+-- ---------------------------------------------------------------------------------------------------------------
+-- cif_packet_create(&packet, names) for n distinct, valid ASCII item names, few enough (n ≤ 9 in the correspondence
+-- runs) that uthash never expands its bucket array.  ICU's own allocations are not events.
+
+/-- cif_normalize on an ASCII name (nothing expands, every buffer is big enough at the first attempt): NFD buffer,
+    case-folded buffer, NFC buffer; returns the id of the result -/
+def normalize (failAt : Nat) (s : St) : Option Nat × St :=
+  match alloc failAt s with                                       -- cif_unicode_normalize(NFD): malloc
+  | (none, s1) => (none, s1)
+  | (some b1, s1) =>
+    match alloc failAt s1 with                                    -- cif_fold_case: malloc
+    | (none, s2) => (none, free b1 s2)
+    | (some b2, s2) =>
+      match alloc failAt (free b1 s2) with                        -- free(buf); cif_unicode_normalize(NFC): malloc
+      | (none, s3) => (none, free b2 s3)
+      | (some b3, s3) => (some b3, free b2 s3)
+
+/-- the normalisation loop of cif_packet_create; `done` = normalised names so far, most recent first.  On failure:
+    `while (counter > 0) free(names_norm[--counter]); free(names_norm);` -/
+def normNames (failAt : Nat) (arr : Nat) : Nat → List Nat → St → Option (List Nat) × St
+  | 0, done, s => (some done.reverse, s)
+  | n + 1, done, s =>
+    match normalize failAt s with
+    | (none, s') => (none, free arr (freeAll done s'))
+    | (some k, s') => normNames failAt arr n (k :: done) s'
+
+/-- one entry of the packet's map -/
+structure Entry where
+  ent : Nat                      -- the struct entry_s (its first member is the value object)
+  key : Nat                      -- the normalised name (aliases names_norm[i] while the packet is not stand-alone)
+  orig : Option Nat := none      -- separate copy of the original spelling, if that differs from the normalised one
+deriving Repr
+
+/-- cif_map_entry_free_internal: `if (key != key_orig) free(key); if (map->is_standalone) free(key_orig);` then
+    cif_value_free(&entry->as_value) = free(entry) (the value is of kind UNK) -/
+def freeEntry (standalone : Bool) (e : Entry) (s : St) : St :=
+  let s := match e.orig with | some _ => free e.key s | none => s
+  let s := if standalone then free (match e.orig with | some o => o | none => e.key) s else s
+  free e.ent s
+
+/-- cif_map_clean: HASH_ITER in insertion order, HASH_DEL then free the entry; HASH_DEL of the last remaining entry
+    first releases the bucket array (free(NULL) if it was never obtained) and the table -/
+def freeEntries (standalone : Bool) (tbl : Nat) (bkts : Option Nat) : List Entry → St → St
+  | [], s => s
+  | e :: es, s =>
+    let s := if es.isEmpty then free tbl (match bkts with | some b => free b s | none => s) else s
+    freeEntries standalone tbl bkts es (freeEntry standalone e s)
+
+/-- cif_packet_free: cif_map_clean, then free(packet).  `tbl = none`: the map is empty (head == NULL). -/
+def packetFree (standalone : Bool) (pkt : Nat) (tbl : Option (Nat × Option Nat)) (es : List Entry) (s : St) : St :=
+  match tbl with
+  | some (t, b) => free pkt (freeEntries standalone t b es s)
+  | none => free pkt s
+
+/-- outcome of a sub-ladder that can run into undefined behaviour -/
+inductive Outcome (α : Type)
+  | ok (a : α)
+  | err
+  | undefined
+deriving Repr
+
+/-- the 2nd, 3rd, … entry of cif_packet_create_norm (HASH_ADD_KEYPTR into the existing table: no request);
+    `done` = entries so far, most recent first -/
+def moreEntries (failAt : Nat) (pkt tbl bkts : Nat) : List Nat → List Entry → St → Option (List Entry) × St
+  | [], done, s => (some done.reverse, s)
+  | key :: rest, done, s =>
+    match alloc failAt s with                                     -- malloc(sizeof(struct entry_s))
+    | (none, s') => (none, packetFree false pkt (some (tbl, some bkts)) done.reverse s')   -- FAIL(soft): cif_packet_free
+    | (some ent, s') => moreEntries failAt pkt tbl bkts rest ({ ent := ent, key := key } :: done) s'
+
+/-- cif_packet_create_norm(packet, names, avoid_aliasing = 0) on the (distinct) normalised names `keys`.
+    `fixed = false` is the code AS IT IS: when uthash cannot allocate its table for the first entry, HASH_ADD_KEYPTR has
+    already made that entry the head, with `hh.tbl == NULL`; `uthash_fatal` jumps to the handler, cif_packet_free →
+    cif_map_clean → HASH_DEL dereferences the NULL table: undefined behaviour (open finding F31 packet_create …
+    ubsan:map.c).  `fixed = true`: the handler first releases such a table-less head entry. -/
+def createNorm (fixed : Bool) (failAt : Nat) (keys : List Nat) (s : St) :
+    Outcome (Nat × Option (Nat × Nat) × List Entry) × St :=
+  match alloc failAt s with                                       -- malloc(sizeof(cif_packet_tp))
+  | (none, s1) => (.err, s1)
+  | (some pkt, s1) =>
+    match keys with
+    | [] => (.ok (pkt, none, []), s1)
+    | key :: rest =>
+      match alloc failAt s1 with                                  -- malloc(sizeof(struct entry_s))
+      | (none, s2) => (.err, packetFree false pkt none [] s2)
+      | (some ent, s2) =>
+        match alloc failAt s2 with                                -- HASH_MAKE_TABLE: uthash_malloc(sizeof(UT_hash_table))
+        | (none, s3) => if fixed then (.err, free pkt (free ent s3)) else (.undefined, s3)
+        | (some t, s3) =>
+          match alloc failAt s3 with                              -- uthash_malloc(32 * sizeof(UT_hash_bucket))
+          | (none, s4) => (.err, packetFree false pkt (some (t, none)) [{ ent := ent, key := key }] s4)
+          | (some b, s4) =>
+            match moreEntries failAt pkt t b rest [{ ent := ent, key := key }] s4 with
+            | (none, s5) => (.err, s5)
+            | (some es, s5) => (.ok (pkt, some (t, b), es), s5)
+
+/-- "assign the original item names": for every respelled name a copy of the original spelling; `todo` = (respelled?,
+    entry) in insertion order, `done` most recent first.  On failure: is_standalone = 1; cif_packet_free;
+    free(names_norm); return CIF_MEMORY_ERROR -/
+def respell (failAt : Nat) (pkt arr : Nat) (tbl : Option (Nat × Nat)) : List (Bool × Entry) → List Entry → St →
+    Option (List Entry) × St
+  | [], done, s => (some done.reverse, s)
+  | (r, e) :: rest, done, s =>
+    if r then
+      match alloc failAt s with                                   -- cif_u_strdup(*next)
+      | (none, s') =>
+        (none, free arr (packetFree true pkt (tbl.map (fun tb => (tb.1, some tb.2))) (done.reverse ++ e :: rest.map (·.2)) s'))
+      | (some o, s') => respell failAt pkt arr tbl rest ({ e with orig := some o } :: done) s'
+    else respell failAt pkt arr tbl rest (e :: done) s
+
+/-- what a successfully created packet owns -/
+structure PacketOwned where
+  pkt : Nat
+  tbl : Option (Nat × Nat)
+  entries : List Entry
+deriving Repr
+
+def Entry.ids (e : Entry) : List Nat := e.ent :: e.key :: e.orig.toList
+
+def entriesIds : List Entry → List Nat
+  | [] => []
+  | e :: es => e.ids ++ entriesIds es
+
+def PacketOwned.ids (p : PacketOwned) : List Nat :=
+  p.pkt :: ((match p.tbl with | some (t, b) => [t, b] | none => []) ++ entriesIds p.entries)
+
+/-- `respelled` = for each name (in order) whether its original spelling differs from the normalised one.
+    Returns (result code, the packet if one was created, final state). -/
+def packetCreateGen (fixed : Bool) (failAt : Nat) (respelled : List Bool) (s : St := {}) : Nat × Option PacketOwned × St :=
+  match alloc failAt s with                                       -- names_norm = malloc(sizeof(UChar *) * (n + 1))
+  | (none, s1) => (MEMORY_ERROR, none, s1)
+  | (some arr, s1) =>
+    match normNames failAt arr respelled.length [] s1 with
+    | (none, s2) => (MEMORY_ERROR, none, s2)
+    | (some keys, s2) =>
+      match createNorm fixed failAt keys s2 with
+      | (.err, s3) => (MEMORY_ERROR, none, free arr (freeAll keys.reverse s3))   -- counter == element_count: all names, array
+      | (.undefined, s3) => (UNDEFINED, none, s3)
+      | (.ok (pkt, tbl, es), s3) =>
+        match respell failAt pkt arr tbl (respelled.zip es) [] s3 with
+        | (none, s4) => (MEMORY_ERROR, none, s4)
+        | (some es', s4) => (OK, some { pkt := pkt, tbl := tbl, entries := es' }, free arr s4)
+
+/-- the code as it is (NULL dereference when uthash's table allocation fails) -/
+def packetCreatePinned (failAt : Nat) (respelled : List Bool) (s : St := {}) := packetCreateGen false failAt respelled s
+/-- with the proposed repair of cif_packet_create_norm's failure handler -/
+def packetCreate (failAt : Nat) (respelled : List Bool) (s : St := {}) := packetCreateGen true failAt respelled s
+
+-- ---------------------------------------------------------------------------------------------------------------
+-- cif_value_deserialize(blob, len, dest) for the blob of a LIST value (the library stores only lists and tables as
+-- blobs) whose elements are unknown/na values, character values and lists of such; `dest` exists before the call.
+-- Not covered: numbers (they run cif_value_parse_numb, open finding F31 …/cif_value_parse_numb/leak) and tables.
+
+/-- shapes covered by the deserialisation ladder -/
+inductive DShape
+  | scalar                        -- unknown / not-applicable
+  | chr                           -- character value: the text
+  | lst (elems : List DShape)     -- list: element array (none when empty) + the elements
+deriving Repr
+
+mutual
+  /-- the DESERIALIZE macro for a list element: the value object `obj` has just been allocated by the macro
+      (`value == NULL`); on failure `FAILURE_HANDLER(vfail): if (val != value) free(val);`.  An empty list owns no element
+      array (cif_list_deserialize: `capacity == 0`), so its ownership is that of a scalar. -/
+  def deserInto (failAt : Nat) (obj : Nat) : DShape → St → Option Owned × St
+    | .scalar, s => (some (.scalar obj), s)
+    | .chr, s =>
+      match alloc failAt s with                                   -- DESERIALIZE_USTRING: malloc((size + 1) * sizeof(UChar))
+      | (none, s') => (none, free obj s')
+      | (some t, s') => (some (.chr obj t), s')
+    | .lst elems, s =>
+      if elems.isEmpty then (some (.scalar obj), s)
+      else
+        match alloc failAt s with                                 -- cif_list_deserialize: the element array
+        | (none, s') => (none, free obj s')
+        | (some arr, s') =>
+          match deserElems failAt elems [] s' with
+          | (some es, s'') => (some (.lst obj arr es), s'')
+          | (none, s'') => (none, free obj (free arr s''))          -- handler(element) … free(elements); then vfail
+  /-- the element loop of cif_list_deserialize; `done` = elements so far, most recent first.  On failure
+      `while (size > 0) cif_value_free(elements[--size]);` -/
+  def deserElems (failAt : Nat) : List DShape → List Owned → St → Option (List Owned) × St
+    | [], done, s => (some done.reverse, s)
+    | sh :: rest, done, s =>
+      match alloc failAt s with                                   -- DESERIALIZE: malloc(sizeof(cif_value_tp))
+      | (none, s') => (none, freeOwnedRev done.reverse s')
+      | (some obj, s') =>
+        match deserInto failAt obj sh s' with
+        | (some o, s'') => deserElems failAt rest (o :: done) s''
+        | (none, s'') => (none, freeOwnedRev done.reverse s'')
+end
+
+/-- `cif_value_deserialize` of a list blob onto the existing object `dest` (not a block of the window).
+    Returns (result code, component ids `dest` gained, final state); the failure code is CIF_ERROR (DEFAULT_FAIL). -/
+def deserialize (failAt : Nat) (elems : List DShape) (s : St := {}) : Nat × Option (List Nat) × St :=
+  if elems.isEmpty then (OK, some [], s)
+  else
+    match alloc failAt s with
+    | (none, s') => (ERROR, none, s')
+    | (some arr, s') =>
+      match deserElems failAt elems [] s' with
+      | (some es, s'') => (OK, some (arr :: Owned.idsList es), s'')
+      | (none, s'') => (ERROR, none, free arr s'')
 
 end CifModel.Model.Ladder
